@@ -331,9 +331,59 @@ let op_logline opidx impl toks =
        | _ -> ())
   | _ -> ()
 
+(* ---- C15: certificate check ---- *)
+let hostent_of (spec : string) (ips : (string * string) list) : hostent =
+  match String.rindex_opt spec ':' with
+  | Some i ->
+      let h = String.sub spec 0 i and pl = String.sub spec (i + 1) (String.length spec - i - 1) in
+      { h_name = bytes_of_hex h; h_ip = (match List.assoc_opt h ips with Some a -> Some (bytes_of_hex a) | None -> None); h_plen = n_of_int (int_of_string pl) }
+  | None -> failwith "hostent"
+
+let op_cert opidx impl toks =
+  let conft, certt = split_bar toks [] in
+  let k = kv conft in
+  (* ipof=<hosthex>:<addrhex> tokens tell the model which host names are IP literals *)
+  let ips = List.filter_map (fun (a, b) -> if a = "ipof" then (match String.split_on_char ':' b with [ h; ad ] -> Some (h, ad) | _ -> None) else None) k in
+  let terms = List.filter_map (fun (a, b) -> if a = "tabs" then Some b else None) k in
+  let nterm = ref (-1) in
+  let term_of (s : string) : term =
+    incr nterm;
+    let id = rxid (Printf.sprintf "cert:%d:%d" opidx !nterm) in
+    match String.split_on_char ':' s with
+    | [ "cn" ] -> TCn id | [ "dns" ] -> TDns id | [ "uri" ] -> TUri id
+    | [ "ip"; a ] -> TIp (bytes_of_hex a) | [ "rid"; o ] -> TRid (bytes_of_string o)
+    | [ "other"; o ] -> TOther (bytes_of_string o, id)
+    | _ -> failwith "term" in
+  let conf = { cc_namecheck = (get k "namecheck" "1" = "1"); cc_cncheck = (get k "cncheck" "0" = "1");
+               cc_servername = (match get k "servername" "-" with "-" -> None | h -> Some (hostent_of (h ^ ":255") ips));
+               cc_hosts = List.map (fun s -> hostent_of s ips) (split_list (get k "hosts" "-"));
+               cc_terms = List.map term_of terms } in
+  let connected = match get k "connected" "-" with "-" -> None | s -> Some (hostent_of s ips) in
+  let realm = match get k "realm" "-" with "-" -> None | h -> Some (bytes_of_hex h) in
+  let cns = ref [] and san = ref [] in
+  List.iter (fun tk ->
+      match String.split_on_char ':' tk with
+      | [ "cn"; h ] -> cns := !cns @ [ bytes_of_hex h ]
+      | [ "dns"; h ] -> san := !san @ [ GDns (bytes_of_hex h) ]
+      | [ "uri"; h ] -> san := !san @ [ GUri (bytes_of_hex h) ]
+      | [ "ip"; h ] -> san := !san @ [ GIp (bytes_of_hex h) ]
+      | [ "rid"; o ] -> san := !san @ [ GRid (bytes_of_string o) ]
+      | [ "other"; o; h ] -> san := !san @ [ GOther (bytes_of_string o, bytes_of_hex h) ]
+      | _ -> ()) certt;
+  let c = { c_cn = !cns; c_san = !san } in
+  let r = verifyconfcert rx c conf connected realm in
+  pr "obs %d cert %d\n" opidx (if r then 1 else 0);
+  flush_misses opidx;
+  (* acceptance by the implementation must be justified: the model accepts only under the clauses of
+     C15_accept_only_if / C15_name / C15_nairealm (theorems) *)
+  (match impl with
+   | Some [ "cert"; "1" ] -> spec opidx "C15_accept_only_if" r "certificate accepted without a matching name / NAIRealm / term"
+   | _ -> ())
+
 let run (opidx : int) (impl : string list option) (toks : string list) : bool =
   match toks with
   | "choose" :: rest -> op_choose opidx impl rest; true
+  | "cert" :: rest -> op_cert opidx impl rest; true
   | "logline" :: rest -> op_logline opidx impl rest; true
   | "frame" :: rest -> op_frame opidx impl rest; true
   | "addr" :: rest -> op_addr opidx impl rest; true
